@@ -17,6 +17,7 @@ import (
 	dht "github.com/anacrolix/dht/v2"
 	"github.com/anacrolix/dht/v2/krpc"
 
+	"testing"
 	"verifharness/kit"
 	"verifharness/refmodel"
 )
@@ -899,4 +900,33 @@ func init() {
 	kit.Register("C15e",
 		"rapid: node lists written with WriteNodesToFile and read back; equal as (ID, address, port) lists. Non-trivial: >= 2 nodes.",
 		nil, genC15e, runC15e)
+}
+
+// FuzzC15Decode: byte-level coverage-guided target (thorough tier) with the same oracles as C15b
+// (decode => re-encode is a fixpoint, no panic) and C15c (compact decoders accept exactly the
+// multiples of their entry size and re-encode identically).
+func FuzzC15Decode(f *testing.F) {
+	for _, s := range []string{
+		"d1:ad2:id20:abcdefghij0123456789e1:q4:ping1:t2:aa1:y1:qe",
+		"d1:ad2:id20:abcdefghij01234567899:info_hash20:mnopqrstuvwxyz1234564:porti6881e5:token8:aoeusnth4:wantl2:n42:n6ee1:q13:announce_peer1:t2:aa1:y1:qe",
+		"d1:rd2:id20:abcdefghij01234567895:nodes26:aaaaaaaaaaaaaaaaaaaaxxxxyy6:nodes638:aaaaaaaaaaaaaaaaaaaaxxxxxxxxxxxxxxxxyy5:token3:tok6:valuesl6:axje.u18:aaaaaaaaaaaaaaaayyee1:t2:aa1:y1:re",
+		"d1:rd2:id20:abcdefghij01234567891:k32:aaaaaaaaaaaaaaaaaaaaaaaaaaaaaaaa3:seqi4e3:sig64:aaaaaaaaaaaaaaaaaaaaaaaaaaaaaaaaaaaaaaaaaaaaaaaaaaaaaaaaaaaaaaaa1:v1:xe1:t2:aa1:y1:re",
+		"d1:eli201e23:A Generic Error Ocurrede1:t2:aa1:y1:ee",
+		"d1:e5:hello1:t2:aa1:y1:ee",
+		"d2:ip6:abcdef1:rd2:id20:abcdefghij01234567897:samples40:aaaaaaaaaaaaaaaaaaaabbbbbbbbbbbbbbbbbbbb8:intervali10e3:numi2ee1:t2:aa1:y1:re",
+		"d1:eli0eli0eee1:t0:1:y1:ee",
+	} {
+		f.Add([]byte(s))
+	}
+	f.Fuzz(func(t *testing.T, data []byte) {
+		c := &kit.Case{}
+		if v := runC15b(BytesCase{Data: data}, c); v != nil {
+			t.Fatalf("VIOLATION-CANDIDATE %s: %s", v.Key, v.Msg)
+		}
+		for _, name := range compactNames {
+			if v := runC15c(CompactCase{Decoder: name, Data: data}, c); v != nil {
+				t.Fatalf("VIOLATION-CANDIDATE %s: %s", v.Key, v.Msg)
+			}
+		}
+	})
 }
